@@ -161,6 +161,13 @@ def _lay(op):
     return 0
 
 
+def _mode(op):
+    """(static link?, number of reads) of a link op; optional elements 6, 7"""
+    if op[0] == "link" and len(op) > 7:
+        return bool(op[6]), int(op[7])
+    return False, 1
+
+
 def _cells(x, lay):
     """(all cell values as floats, indices of the judged cells)"""
     x = float(x)
@@ -171,13 +178,14 @@ def _cells(x, lay):
 
 
 def expand(op):
-    """the scalar model ops of one op (one per judged cell)"""
+    """the scalar model ops of one op: one per read and judged cell (reads outermost)"""
     lay = _lay(op)
-    if op[0] not in ("prepare", "link") or lay == 0:
+    _, reads = _mode(op)
+    if op[0] not in ("prepare", "link") or (lay == 0 and reads == 1):
         return [op[:4] if op[0] == "prepare" else op[:5] if op[0] == "link" else op]
     xi = 3 if op[0] == "prepare" else 4
     vals, judged = _cells(op[xi], lay)
-    return [op[:xi] + [vals[i]] for i in judged]
+    return [op[:xi] + [vals[i]] for _ in range(reads) for i in judged]
 
 
 def answers(op, got):
@@ -194,7 +202,8 @@ RULE = (
     "degC/K/degF, percent/ppm/psu/radian/degree, dimensionless aliases, CF/UDUNITS spellings); sweep sessions cover "
     "every ordered pair of names in random order, focus sessions hammer 3-6 names (repeated and reversed queries), "
     "cache clears (API or dict.clear()) at random points; half of the prepare/link ops run on UniformGrid((3,3)) "
-    "under Mask.NONE / Mask.FLEX / a fixed mask array with plain and masked-array payloads, every unmasked cell judged; non-trivial = a session that repeats a pair after it was "
+    "under Mask.NONE / Mask.FLEX / a fixed mask array with plain and masked-array payloads, every unmasked cell judged; 40% of the links are static (Output(static) >> Input(static), one publication) and "
+    "links are read 1-4 times, every read judged; non-trivial = a session that repeats a pair after it was "
     "cached, contains a clear, and contains compatible-not-equivalent, equivalent-not-identical and incompatible pairs; "
     "distinct by canonical case hash"
 )
@@ -306,7 +315,9 @@ def _mk_op(rng, kind, i, j, third=None):
     if kind == "link":
         r = rng.random()
         k = None if r < 0.15 else (third if third is not None else rng.randrange(NCAT))
-        return ["link", k, i, j, x, lay]
+        static = rng.random() < 0.4
+        reads = rng.choice([2, 2, 3, 4]) if static or rng.random() < 0.3 else 1
+        return ["link", k, i, j, x, lay, static, reads]
     raise ValueError(kind)
 
 
@@ -361,6 +372,13 @@ def _i(n):
 
 
 CORPUS = [
+    # seeded/C17_c: a STATIC input must deliver the converted publication on EVERY read (not only the first);
+    # timed links read repeatedly next to them; scalar and fixed-mask layouts
+    {"ops": [["link", _i("km"), _i("km"), _i("m"), 1.5, 0, True, 3], ["link", None, _i("degC"), _i("K"), 1.5, 0, True, 4],
+             ["link", _i("%"), _i("%"), _i("1"), 2.5, 5, True, 3], ["link", _i("mm/d"), _i("mm/d"), _i("m/s"), 86400.0, 2, True, 2],
+             ["link", _i("degF"), _i("degF"), _i("degC"), -40.0, 0, True, 3], ["link", _i("hPa"), _i("hPa"), _i("Pa"), 1.0, 4, True, 2],
+             ["link", _i("Hz"), _i("1/s"), _i("s-1"), 2.5, 0, True, 3], ["link", _i("m"), _i("m"), _i("s"), 1.0, 0, True, 2],
+             ["link", _i("km"), _i("km"), _i("m"), 1.5, 0, False, 3], ["link", _i("mm"), _i("m"), _i("km"), 2.5, 5, False, 2]]},
     # seeded/C17_b: foreign compatible units published as a quantity with a plain magnitude on an output whose
     # Info has a FIXED mask must still be converted (1.5 km on an 'm' output is 1500 m), in every layout
     {"ops": [["link", _i("km"), _i("m"), _i("m"), 1.5, 5], ["prepare", _i("km"), _i("m"), 1.5, 5],
@@ -529,19 +547,24 @@ def run_impl(case):
                 lay = _lay(op)
                 vals, judged = _cells(x, lay)
                 grid, mask, arr = _layout(fm, np, vals, lay)
-                out = fm.Output(name="Out")
-                inp = fm.Input(name="In")
+                static, reads = _mode(op)
+                tt = None if static else t0
+                out = fm.Output(name="Out", static=static)
+                inp = fm.Input(name="In", static=static)
                 out >> inp
                 inp.ping()
-                out.push_info(fm.Info(time=t0, grid=grid, units=NAMES[a], mask=mask))
-                inp.exchange_info(fm.Info(time=t0, grid=grid, units=NAMES[b]))
+                out.push_info(fm.Info(time=tt, grid=grid, units=NAMES[a], mask=mask))
+                inp.exchange_info(fm.Info(time=tt, grid=grid, units=NAMES[b]))
                 d = arr if kk is None else Qn(arr, fm.UNITS.Unit(NAMES[kk]))
-                out.push_data(d, t0)
+                out.push_data(d, tt)
                 st = out.data[-1][1]
-                got = inp.pull_data(t0)
-                cs, cg = _cellvals(np, st.magnitude, lay), _cellvals(np, got.magnitude, lay)
-                per = [["link", _label(st.units), _frs(cs[i]), _label(got.units), _frs(cg[i])] for i in judged]
-                res.append(per[0] if lay == 0 else ["multi", per])
+                cs = _cellvals(np, st.magnitude, lay)
+                per = []
+                for _ in range(reads):  # every read must deliver the converted publication
+                    got = inp.pull_data(t0)
+                    cg = _cellvals(np, got.magnitude, lay)
+                    per += [["link", _label(st.units), _frs(cs[i]), _label(got.units), _frs(cg[i])] for i in judged]
+                res.append(per[0] if len(per) == 1 and lay == 0 and reads == 1 else ["multi", per])
             else:
                 raise ValueError(k)
         except Exception as e:  # noqa  (also a unit name pint cannot parse: an answer the model cannot give)
@@ -673,10 +696,14 @@ def monitor(case, obs):
         sops, gots = expand(op), answers(op, got)
         if len(sops) != len(gots):
             return f"op {n}: {_show(op)}: {len(gots)} cell answers, expected {len(sops)}"
-        for sop, g in zip(sops, gots):
+        st, reads = _mode(op)
+        for q, (sop, g) in enumerate(zip(sops, gots)):
             f = _cmp(_show(sop), pure(sop), g)
             if f:
-                return f"op {n} [{LAYOUTS[_lay(op)]}]: {f}"
+                where = LAYOUTS[_lay(op)]
+                if op[0] == "link":
+                    where += f", {'static' if st else 'timed'} link, read {q // max(1, len(sops) // reads) + 1} of {reads}"
+                return f"op {n} [{where}]: {f}"
     return None
 
 
@@ -727,8 +754,9 @@ def distribution(cases, obss):
     cls = Counter()
     for (i, j) in pairs:
         cls["identical" if CID[i] == CID[j] else "equivalent" if equiv(i, j) else "compatible" if compat(i, j) else "incompatible"] += 1
+    reads = Counter(("static" if _mode(op)[0] else "timed") + f" x{_mode(op)[1]}" for c in cases for op in c["ops"] if op[0] == "link")
     lays = Counter(LAYOUTS[_lay(op)] for c in cases for op in c["ops"] if op[0] in ("prepare", "link"))
-    return {"op_kinds": dict(kinds), "answers": dict(outcome), "prepare_link_layouts": dict(lays), "ordered_name_pairs_covered": len(pairs),
+    return {"op_kinds": dict(kinds), "answers": dict(outcome), "prepare_link_layouts": dict(lays), "link_reads": dict(reads), "ordered_name_pairs_covered": len(pairs),
             "ordered_name_pairs_total": NCAT * NCAT, "pair_classes_covered": dict(cls),
             "session_length_bucket": dict(Counter(min(len(c["ops"]) // 50 * 50, 400) for c in cases))}
 
